@@ -1,6 +1,10 @@
 package bpmn
 
-import "context"
+import (
+	"context"
+
+	"github.com/olive-io/bpmn/schema"
+)
 
 // C08.a: n Do calls on one task request (concurrent), optional cancellation of the task's context.
 // Every Do returns; the consumer sees exactly one response.
@@ -34,3 +38,82 @@ func VerifC08a_Do1()       { verifC08aDo(1, false) }
 func VerifC08a_Do2()       { verifC08aDo(2, false) }
 func VerifC08a_Do3()       { verifC08aDo(3, false) }
 func VerifC08a_Do2Cancel() { verifC08aDo(2, true) }
+
+// C08.c: error modes of a task answer, decided on the real flow loop.  The task node is a stand-in that answers every
+// request with an error and the handler mode chosen by the scenario (retry count: solver's choice); the host element
+// carries a task definition with its own retry default.  Retry: the same task is re-requested at most the given number
+// of additional times; exit: the token stops; skip / no handler: an error trace, then the token continues.
+type verifFailingNode struct {
+	elem     schema.FlowNodeInterface
+	outs     []*SequenceFlow
+	requests *int64
+	mode     ErrHandleMode
+	retries  int32
+	noHandle bool
+}
+
+func (n *verifFailingNode) NextAction(ctx context.Context, flow Flow) chan IAction {
+	verifAdd(n.requests, 1)
+	ch := make(chan IAction, 1)
+	rsp := &FlowActionResponse{err: verifErr{}}
+	if !n.noHandle {
+		h := make(chan ErrHandler, 1)
+		verifPushHandler(h, ErrHandler{Mode: n.mode, Retries: n.retries})
+		rsp.handler = h
+	}
+	verifPushAction(ch, flowAction{response: rsp, sequenceFlows: n.outs})
+	return ch
+}
+func (n *verifFailingNode) Element() schema.FlowNodeInterface { return n.elem }
+
+func verifPushHandler(ch chan ErrHandler, h ErrHandler) { ch <- h }
+
+var verifRetries int32 = -2 // -2: solver's choice among 0..2
+
+func verifC08c(mode ErrHandleMode, noHandle bool) {
+	b := verifNewB("p")
+	b.flow("in", "s", "a", false)
+	b.task("a", []string{"in"}, []string{"n"})
+	ext := schema.DefaultExtensionElements()
+	ext.TaskDefinitionField = &schema.TaskDefinition{Retries: 2}
+	b.p.TaskField[0].SetExtensionElements(&ext)
+	b.flow("n", "a", "nx", false)
+	b.task("nx", []string{"n"}, nil)
+	inst := verifNewInst(b)
+	if inst.proc == nil {
+		return
+	}
+	var nx, requests int64
+	inst.sinkAt("nx", &nx)
+	real := inst.nodeAt("a").(*harness)
+	r := verifRetries
+	if r == -2 {
+		r = int32(verifChoice("retries", 0, 2))
+	}
+	node := &verifFailingNode{elem: inst.elem("a"), outs: allSequenceFlows(&real.outgoing), requests: &requests, mode: mode, retries: r, noHandle: noHandle}
+	inst.proc.flowNodeMapping.mapping["a"] = node
+	ex, present := node.elem.ExtensionElements()
+	verifAssert(present && ex != nil && ex.TaskDefinitionField != nil && ex.TaskDefinitionField.Retries == 2, "harness: the host element carries its task definition")
+	inst.tokenAt("a", "in")
+	verifQuiesce()
+	verifReach("quiescent")
+	verifAssert(inst.errs >= 1, "an answer carrying an error emits an error trace")
+	switch {
+	case noHandle || mode == SkipMode:
+		verifAssert(verifGet(&requests) == 1 && verifGet(&nx) == 1, "no handler or skip: the token continues after the error trace")
+	case mode == ExitMode:
+		verifAssert(verifGet(&requests) == 1 && verifGet(&nx) == 0, "exit: the token stops")
+	default:
+		verifAssert(verifGet(&requests) == 1+int64(r), "retry: the task is re-requested exactly the given number of additional times while it keeps failing")
+		verifAssert(verifGet(&requests) <= 1+int64(r), "retry: the task is re-requested at most the given number of additional times")
+		verifAssert(verifGet(&nx) == 0, "retry exhausted: the token stops")
+	}
+}
+
+func VerifC08c_Retry()     { verifC08c(RetryMode, false) }
+func VerifC08c_Retry0()    { verifRetries = 0; verifC08c(RetryMode, false) }
+func VerifC08c_Retry1()    { verifRetries = 1; verifC08c(RetryMode, false) }
+func VerifC08c_Retry2()    { verifRetries = 2; verifC08c(RetryMode, false) }
+func VerifC08c_Skip()      { verifC08c(SkipMode, false) }
+func VerifC08c_Exit()      { verifC08c(ExitMode, false) }
+func VerifC08c_NoHandler() { verifC08c(SkipMode, true) }
